@@ -324,16 +324,31 @@ class Spinner:
             # Twisted's signal handlers.
             real_stop, self._reactor.stop = self._reactor.stop, self._fake_stop
 
+            # The Deferred may fire after this run is over - even during a
+            # later run of this Spinner, which it must not disturb.
+            this_run = [True]
+
+            def during_this_run(handler):
+                def call(result):
+                    if this_run:
+                        return handler(result)
+
+                return call
+
             def run_function():
                 d = defer.maybeDeferred(function, *args, **kwargs)
-                d.addCallbacks(self._got_success, self._got_failure)
-                d.addBoth(self._stop_reactor)
+                d.addCallbacks(
+                    during_this_run(self._got_success),
+                    during_this_run(self._got_failure),
+                )
+                d.addBoth(during_this_run(self._stop_reactor))
 
             try:
                 self._reactor.callWhenRunning(run_function)
                 self._spinning = True
                 self._reactor.run()
             finally:
+                del this_run[:]
                 self._reactor.stop = real_stop
                 self._restore_signals()
             try:
